@@ -350,6 +350,10 @@ def run(ck):
 
     lap(ck, "protect")
     protect(ck, model3)
+
+    # ------------------------------------------------------------------ sequences of operations on one tag object
+    lap(ck, "sequences")
+    sequences(ck, model3)
     lap(ck, None)
 
 
@@ -854,3 +858,266 @@ def protect(ck, model3):
         replay = {"op": "protect", "class": klass, "memory": base.hex(), "header_rom": lay["hr"].hex(), "request": req}
         run_protect(T1Sim(lay["hr"], base), klass, base, args, allowed, replay, lay, req)
     pt.close()
+
+
+# ====================================================================== sequences on ONE tag object
+SEQ_OPS = ["r", "w", "w", "f", "fw", "fv", "p"]
+
+
+def all_sequences(alphabet, lo, hi):
+    import itertools
+    out = []
+    for n in range(lo, hi + 1):
+        out += list(itertools.product(alphabet, repeat=n))
+    return out
+
+
+def seq_capacity(lay):
+    free = len([a for a in range(lay["off"], lay["end"]) if a not in lay["skip"]])
+    return free - (4 if free > 256 else 2)
+
+
+def seq_hdr3(lay):
+    o = lay["off"]
+    return o + 4 <= lay["end"] and (o + 2) not in lay["skip"] and (o + 3) not in lay["skip"]
+
+
+TOPAZ_FACTORY = {
+    "topaz": dict(off=12, skip=set(range(104, 120)), end=120, hdr=set(range(8, 14)), wipe=set(range(14, 104))),
+    "topaz512": dict(off=22, skip=set(range(104, 128)), end=512, hdr=set(range(8, 24)),
+                     wipe=set(range(24, 104)) | set(range(128, 512))),
+}
+
+
+def do_op(tag, op):
+    """one application call on the tag object -> canonical outcome"""
+    try:
+        if op[0] == "r":
+            nd = tag.ndef
+            if nd is None:
+                return "false"
+            bytes(nd.octets)
+            return "true"
+        if op[0] == "w":
+            nd = tag.ndef
+            if nd is None:
+                return "false"
+            nd.octets = op[1]
+            return "true"
+        if op[0] == "f":
+            r = tag.format(version=op[1], wipe=op[2])
+        else:
+            r = tag.protect()
+        return "true" if r is True else "false" if r is False else "none"
+    except Exception as e:  # noqa
+        return "exc " + exc_name(e)
+
+
+def sequences(ck, model3):
+    """2..4 application calls {read, write, format, format+wipe, format(version), protect} on ONE tag object.  After
+    every call: (a) the bytes changed and the commands sent are judged against the area of the layout that is on the
+    tag at that moment (tracked by the harness from the generator's description: NDEF writes and the Type 2 format keep
+    the layout, a Topaz format installs the factory layout), (b) the call must have behaved exactly like the same call
+    on a FRESH tag object activated on the same memory (same result, same commands, same memory) - cached state of
+    the object (Tag._ndef, the NDEF object's memory image, offset and skip set) must not show, (c) the whole session is
+    compared with the model of the Tag._ndef cache (Model/SessC03, drv_c03 `seq`)."""
+    from sims import c03_layouts as G
+    from sims.c03_vendor import PRODUCTS, NxpSim, NXP_SDD
+    from sims.t12_run import read_line, show_cmds
+    from sims.t12_tags import activate, T2Sim, T1Sim, put_ndef
+    rng = ck.rng
+    st = Tie(ck, model3, "session-model-vs-nfcpy", "SessC03 model (Tag._ndef cache) vs sequences of read/write/format/protect on one tag object")
+    every = all_sequences(["r", "w", "f", "fw", "fv", "p"], 2, 4)
+    must = [q for q in every if len(q) == 2 or (len(q) == 3 and q[-1] == "w" and ("f" in q[:2] or "fw" in q[:2] or "fv" in q[:2] or "p" in q[:2]))]
+
+    def make(klass):
+        """(layout, simulator factory, model class name, nfcpy class name, kind for read_line)"""
+        if klass == "t2":
+            lay = G.gen_field_layout(rng, "t2", size=rng.choice([6, 12, 18, 32, 40, 62, 129]), aligned=True)
+            lay = G.with_old(rng, lay, [0, 5, 40, lambda f: f - 4])
+            if lay is None:
+                return None
+            return lay, (lambda m: T2Sim(m)), "t2", "Type2Tag", "t2"
+        if klass in PRODUCTS:
+            lay = vendor_layout(rng, G, klass, rng.choice(["factory", "field"]))
+            lay = None if lay is None else G.with_old(rng, lay, [0, 5, 40, lambda f: f - 4])
+            if lay is None:
+                return None
+            lay["sdd"] = NXP_SDD
+            return lay, (lambda m: NxpSim(klass, m)), "t2", PRODUCTS[klass]["cls"], "t2"
+        if klass == "t1":
+            lay = G.gen_field_layout(rng, "t1d", size=rng.choice([16, 32, 64]))
+            lay = G.with_old(rng, lay, [0, 5, 40, lambda f: f - 4])
+            if lay is None:
+                return None
+            lay["hr"] = b"\x12\x4D"
+            return lay, (lambda m: T1Sim(b"\x12\x4D", m)), "t1", "Type1Tag", "t1d"
+        dyn = klass == "topaz512"
+        which = rng.choice(["factory", "at12", "field"])
+        if which == "field":
+            lay = G.gen_field_layout(rng, "t1d" if dyn else "t1s", size=64 if dyn else None)
+        else:
+            size = 512 if dyn else 120
+            mem = bytearray(rng.randrange(256) for _ in range(size))
+            mem[0:8] = b"\x01\x02\x03\x04\x05\x06\x07\x00"
+            if dyn and which == "factory":
+                mem[8:24] = bytes.fromhex("E1103F000103F230330203F002030300")
+                off, skip = 22, set(range(104, 128))
+            else:
+                # the NDEF TLV directly behind the capability container (legal; not what format() creates on a Topaz-512)
+                mem[8:14] = bytes([0xE1, 0x10, size // 8 - 1, 0x00, 0x03, 0x00])
+                off, skip = 12, set(range(104, 128 if dyn else 120))
+            lay = dict(kind="t1d" if dyn else "t1s", mem=mem, off=off, skip=skip, end=size, ok=True, ctl=[], nctl=0,
+                       free=len([a for a in range(off, size) if a not in skip]))
+            lay["hdr3"] = True
+        lay = G.with_old(rng, lay, [0, 5, 40, lambda f: f - 4])
+        if lay is None:
+            return None
+        hr = b"\x12\x4C" if dyn else b"\x11\x48"
+        lay["hr"] = hr
+        return lay, (lambda m: T1Sim(hr, m)), klass, "Topaz512" if dyn else "Topaz", "t1d" if dyn else "t1s"
+
+    classes = ["t2", "t2", "topaz", "topaz512", "topaz512", "t1"] + sorted(PRODUCTS)
+    nseq = {True: 260, False: 28}[ck.thorough]
+    for klass in classes:
+        vendor_cls = klass in PRODUCTS
+        pool = list(must) + [rng.choice(every) for _ in range(nseq)]
+        if not ck.thorough:
+            pool = [q for q in must if rng.random() < (0.25 if not vendor_cls else 0.08)] + [rng.choice(every) for _ in range(nseq if not vendor_cls else 6)]
+            # the shape of seeded change C03-r3m4 and its neighbours are always present
+            pool += [("r", "f", "w"), ("r", "fw", "w"), ("w", "f", "w"), ("r", "fv", "w"), ("f", "w"), ("r", "p", "w"), ("w", "p", "w"), ("r", "f", "r", "w")]
+        for shape in pool:
+            if klass == "t1" and any(x.startswith("f") for x in shape):
+                continue            # the generic Type 1 Tag has no format
+            if vendor_cls and "p" in shape:
+                continue            # the vendor protect() variants are covered one call at a time (protect section)
+            made = make(klass)
+            if made is None:
+                continue
+            lay, sim_of, mk, cls, kind = made
+            cur = dict(off=lay["off"], skip=set(lay["skip"]), end=lay["end"])
+            ccb = 12 if kind == "t2" else 8
+            base0 = bytes(lay["mem"])
+            replay = {"op": "sequence", "class": cls, "memory": base0.hex(), "layout": G.describe(lay), "steps": []}
+            try:
+                sim = sim_of(base0)
+                tag = activate(sim)
+                if type(tag).__name__ != cls:
+                    ck.fail("t2-vendor-class-not-selected", "activation gave %s, expected %s" % (type(tag).__name__, cls), replay)
+                    continue
+            except Exception as e:  # noqa
+                ck.fail("t12-unexpected-exception", "%s: activation raised %s: %s" % (cls, exc_name(e), e), replay)
+                continue
+            steps, req_ops, aborted = [], [], False
+            for x in shape:
+                before = bytes(sim.mem)
+                readonly = (before[ccb + 3] & 0x0F) != 0
+                cap = seq_capacity(cur)
+                if x == "w":
+                    n = rng.choice([cap, cap, cap - 1, 1, 7, rng.randrange(0, max(1, cap + 1))])
+                    if n >= 255 and not seq_hdr3(cur):
+                        n = rng.choice([1, 7, 254])
+                    n = max(1, min(n, max(cap, 1)))
+                    op = ("w", bytes(rng.randrange(256) for _ in range(n)))
+                    req_ops.append("w" + op[1].hex())
+                    descr = "write %d bytes" % n
+                elif x in ("f", "fw", "fv"):
+                    version = rng.choice([0x10, 0x11, 0x12, 0x20, 0x0F]) if x == "fv" else None
+                    wipe = rng.choice([0, 0xFF, rng.randrange(256)]) if x == "fw" or (x == "fv" and rng.random() < 0.4) else None
+                    op = ("f", version, wipe)
+                    req_ops.append("f%d:%d" % (-1 if version is None else version, -1 if wipe is None else wipe))
+                    descr = "format(version=%r, wipe=%r)" % (version, wipe)
+                elif x == "p":
+                    op = ("p",)
+                    req_ops.append("p")
+                    descr = "protect()"
+                else:
+                    op = ("r",)
+                    req_ops.append("r")
+                    descr = "read ndef"
+                replay["steps"].append(descr + ("" if op[0] != "w" else " " + op[1].hex()))
+                try:
+                    sim.arm(None)
+                    out = do_op(tag, op)
+                    cmds = list(sim.writes)
+                    after = bytes(sim.mem)
+                    # the same call on a fresh object
+                    fsim = sim_of(before)
+                    ftag = activate(fsim)
+                    fsim.arm(None)
+                    fout = do_op(ftag, op)
+                    fcmds, fafter = list(fsim.writes), bytes(fsim.mem)
+                except Exception as e:  # noqa
+                    ck.fail("t12-unexpected-exception", "%s: %s raised %s: %s" % (cls, descr, exc_name(e), e), replay)
+                    aborted = True
+                    break
+                steps.append("%s %s" % (out, show_cmds(cmds)))
+                what = "%s, step %d of [%s]: %s" % (cls, len(steps), "; ".join(replay["steps"]), descr)
+                if out.startswith("exc") and out[4:] in INTERNAL and not (out == "exc AttributeError" and op[0] == "w" and readonly) \
+                        and not (out == "exc ValueError" and op[0] == "w" and len(op[1]) > cap):
+                    ck.fail("t12-sequence-unexpected-exception", "%s ended with %s" % (what, out), replay)
+                if (out, cmds, after) != (fout, fcmds, fafter):
+                    k = next((i for i in range(min(len(after), len(fafter))) if after[i] != fafter[i]), -1)
+                    ck.fail("t12-sequence-stale-object-state", "%s behaves differently on the used tag object than on a fresh one "
+                            "activated on the same memory: used %s [%s], fresh %s [%s]%s" % (
+                                what, out, show_cmds(cmds)[:80], fout, show_cmds(fcmds)[:80],
+                                "" if k < 0 else ", first differing byte %d" % k), replay)
+                changed = [a for a in range(len(before)) if before[a] != after[a]]
+                # ---- what may change in this step
+                if op[0] == "r":
+                    allowed = set()
+                elif op[0] == "w":
+                    allowed = set() if readonly else set(a for a in range(cur["off"] + 1, cur["end"]) if a not in cur["skip"])
+                    if not readonly and out != "true" and len(op[1]) <= cap:
+                        ck.fail("t12-sequence-write-fails", "%s ended with %s (capacity of the current layout %d)" % (what, out, cap), replay)
+                elif op[0] == "f":
+                    if mk == "t2":
+                        allowed = set() if readonly else set(a for a in range(cur["off"] + 1, cur["end"]) if a not in cur["skip"])
+                    elif op[1] is not None and op[1] >> 4 != 1:
+                        allowed = set()
+                    else:
+                        fac = TOPAZ_FACTORY[mk]
+                        allowed = set(fac["hdr"]) | (fac["wipe"] if op[2] is not None else set())
+                        if out == "true":
+                            cur = dict(off=fac["off"], skip=set(fac["skip"]), end=fac["end"])
+                else:
+                    if mk == "t2":
+                        allowed = {10, 11, 15}
+                        locks = [(f, c) for t, d0, d1, d2, f, c, w in lay.get("ctl", []) if t == 1]
+                        if not locks and before[14] > 6:
+                            nbits = (before[14] * 8 - 48 + 7) // 8
+                            locks = [(cur["end"], (nbits + 7) // 8)]
+                        for f, c in locks:
+                            allowed |= set(range(f, f + c))
+                    else:
+                        allowed = {11} | ({112, 113} if mk != "t1" else set()) | ({120, 121} if mk == "topaz512" else set())
+                bad = [a for a in changed if a not in allowed]
+                if bad:
+                    a = bad[0]
+                    inside = cur["off"] < a < cur["end"] and a not in cur["skip"]
+                    ck.fail("t12-sequence-outside-area", "%s changed byte %d %02x -> %02x, which %s (NDEF TLV of the current layout "
+                            "at %d, data area ends at %d)" % (what, a, before[a], after[a],
+                                                             "must not change in this step" if inside else "lies outside the NDEF area of the layout that is on the tag now",
+                                                             cur["off"], cur["end"]), replay)
+                for a, d in cmds:
+                    if not any(x_ in allowed for x_ in range(a, a + len(d))):
+                        ck.fail("t12-sequence-command-outside-area", "%s sent a write command for bytes %d..%d, wholly outside what "
+                                "this step may touch" % (what, a, a + len(d) - 1), replay)
+                        break
+                if out.startswith("exc TagCommandError"):
+                    # a command error (here: declared lock bytes that do not exist in the physical memory) ends the
+                    # session: what the object does after a failed command is outside the property's quantifier
+                    ck.count("sequence ended by a TagCommandError (not continued)")
+                    break
+            if aborted:
+                continue
+            ck.case(("sequence", cls, base0, tuple(replay["steps"])), any(" -" not in s_ for s_ in steps),
+                    "sequence:%s:len%d" % (cls, len(shape)),
+                    sample={"op": "sequence", "class": cls, "steps": replay["steps"]} if shape == ("r", "f", "w") and klass == "topaz512" else None)
+            try:
+                final, _, _ = read_line(kind, T2Sim(bytes(sim.mem), sim.sdd) if kind == "t2" else T1Sim(lay["hr"], bytes(sim.mem)))
+            except Exception as e:  # noqa
+                final = "exc " + exc_name(e)
+            replay["request"] = "seq %s %s %s" % (mk, hx(base0), ",".join(req_ops))
+            st.add(replay["request"], " ; ".join(steps) + " | " + final, replay)
+    st.close()
